@@ -74,6 +74,13 @@ FragRows == <<
   << 2325, "V", <<>>,        0,   <<>>,         FALSE, "L",   FALSE, "U" >>,  \* U+0915 KA
   << 2364, "V", <<>>,        7,   <<>>,         FALSE, "NSM", TRUE,  "T" >>,  \* U+093C NUKTA
   << 2381, "V", <<>>,        9,   <<>>,         FALSE, "NSM", TRUE,  "T" >>,  \* U+094D VIRAMA
+  \* ---- Bengali: a two-part vowel sign = a primary composite whose SECOND part is a starter too (ccc 0, spacing mark)
+  << 2453, "V", <<>>,        0,   <<>>,         FALSE, "L",   FALSE, "U" >>,  \* U+0995 BENGALI KA
+  << 2494, "V", <<>>,        0,   <<>>,         FALSE, "L",   TRUE,  "U" >>,  \* U+09BE BENGALI VOWEL SIGN AA
+  << 2503, "V", <<>>,        0,   <<>>,         FALSE, "L",   TRUE,  "U" >>,  \* U+09C7 BENGALI VOWEL SIGN E
+  << 2507, "V", <<>>,        0,   <<2503,2494>>, FALSE, "L",  TRUE,  "U" >>,  \* U+09CB BENGALI VOWEL SIGN O = E + AA
+  << 2508, "V", <<>>,        0,   <<2503,2519>>, FALSE, "L",  TRUE,  "U" >>,  \* U+09CC BENGALI VOWEL SIGN AU = E + AU LENGTH MARK
+  << 2519, "V", <<>>,        0,   <<>>,         FALSE, "L",   TRUE,  "U" >>,  \* U+09D7 BENGALI AU LENGTH MARK
   << 2392, "M", <<2325,2364>>, 0, <<2325,2364>>, TRUE, "L",   FALSE, "U" >>,  \* U+0958 QA (composition exclusion)
   \* ---- Hangul jamo
   << 4352, "V", <<>>,        0,   <<>>,         FALSE, "L",   FALSE, "U" >>,  \* U+1100 CHOSEONG KIYEOK (L)
@@ -224,6 +231,7 @@ UniComposes(a, b) ==
   \/ b = 803 /\ A({65,66,68,69,72,73,75,76,77,78,79,82,83,84,85,86,87,89,90}) \* dot below: ABDEHIKLMNORSTUVWYZ
   \/ b = 824 /\ a \in {60, 61, 62}                                            \* < = > with long solidus
   \/ b = 12442 /\ a = 12495                                                   \* HA + semi-voiced
+  \/ a = 2503 /\ b \in {2494, 2519}                                            \* Bengali E + AA / AU length mark
 
 \* canonical composition (UAX #15): state = output, index of the last starter
 \* (0 = none), ccc of the last character appended after it, "missing" flag
